@@ -310,7 +310,7 @@ Qed.
 Definition conn_guard (N : popnet) (c : conn) : bool :=
   negb (collides N c) &&
   match cw c, ccpl c with
-  | WScal w, CPlain => negb (near_one w) || Qceqb w 1
+  | WScal w, CPlain => true
   | WScal _, _ => false
   | WMat _, _ => true
   end.
@@ -319,7 +319,7 @@ Definition conn_guard (N : popnet) (c : conn) : bool :=
 Definition shapes_ok (N : popnet) (hist : list nstate) (c : conn) (V : mat) : Prop :=
   length (src_vec N hist c V) = size_of N (csrc c) /\
   length (post_of N hist c) = size_of N (ctgt c) /\
-  (is_dyn (ccpl c) = true -> length V = size_of N (ctgt c)).
+  (is_dyn (ccpl c) = true -> (size_of N (ctgt c) <= length V)%nat).
 
 Theorem pop_contrib_is_edge_sum N hist c V i :
   wf_conn N c = true -> conn_guard N c = true -> shapes_ok N hist c V -> (i < size_of N (ctgt c))%nat ->
@@ -342,9 +342,8 @@ Proof.
       unfold exp_term. rewrite Ek. reflexivity.
   - destruct (ccpl c) eqn:Ek; try discriminate.
     rewrite nth_repeat_lt by exact Hi. unfold exp_term. rewrite Ek. cbn zeta. fold s. rewrite <- Hs.
-    rewrite <- (scalar_is_edge_sum w s (size_of N (ctgt c)) i Hi).
-    + destruct (near_one w) eqn:En; [|reflexivity]. cbn [negb orb] in Hg.
-      unfold Qceqb in Hg. apply Qeq_bool_eq in Hg. apply Qc_is_canon in Hg. subst w. ring.
+    cbn [is_plain]. rewrite <- (scalar_is_edge_sum (elide w) s (size_of N (ctgt c)) i Hi).
+    unfold elide. destruct (near_one w); [ring|reflexivity].
 Qed.
 
 (* boolean comparison is reflexive: a computed `false` proves a disequality *)
@@ -385,13 +384,13 @@ Proof.
         | repeat split; try (vm_compute; reflexivity); apply otraj_neq; vm_compute; reflexivity ].
 Qed.
 
-(* a scalar weight within 1e-8 of 1 is replaced by 1 *)
+(* a scalar weight within weight_tol of 1 is not applied — in the population circuit and in the explicit network alike *)
 Definition N_near_one : popnet :=
   {| pops := two_pops 2 2; conns := [mkconn 0 0 1 0 (WScal (mkq 1073741825 1073741824)) CPlain 0 0] |}.
-Lemma refuted_near_one :
-  wf_net N_near_one = true /\ g_not_near_one N_near_one = false /\
-  pop_run unit_poly N_near_one units22 (mkq 1 4) 2 <> Some (exp_run 0 unit_poly N_near_one units22 (mkq 1 4) 2).
-Proof. repeat split; try (vm_compute; reflexivity). apply otraj_neq. vm_compute. reflexivity. Qed.
+Lemma near_one_elided_on_both_sides :
+  wf_net N_near_one = true /\ near_one (mkq 1073741825 1073741824) = true /\
+  pop_run unit_poly N_near_one units22 (mkq 1 4) 2 = Some (exp_run 0 unit_poly N_near_one units22 (mkq 1 4) 2).
+Proof. repeat split; vm_compute; reflexivity. Qed.
 
 (* post-synaptic variable named like the source variable, two populations of equal size: the source is lost *)
 Definition N_post_name : popnet :=
@@ -555,9 +554,10 @@ Qed.
 (* ------------------------------------------------------------------ shape invariant of the edge states *)
 Definition rectP (n m : nat) (V : mat) : Prop := length V = n /\ forall i, (i < n)%nat -> length (nth i V []) = m.
 (* a dynamic coupling keeps one state per (target, source) pair; a gamma-kernel delay keeps chain_order stages per source unit *)
+Definition rows_ok (n m : nat) (V : mat) : Prop := (n <= length V)%nat /\ forall i, (i < n)%nat -> length (nth i V []) = m.
 Definition edge_ok (N : popnet) (c : conn) (V : mat) : Prop :=
-  (is_dyn (ccpl c) = true -> rectP (size_of N (ctgt c)) (size_of N (csrc c)) V) /\
-  (is_dyn (ccpl c) = false -> forall ds, cspread c = Some ds -> rectP (chain_order ds) (size_of N (csrc c)) V).
+  (is_dyn (ccpl c) = true -> rows_ok (size_of N (ctgt c)) (size_of N (csrc c)) V) /\
+  (forall ds, cspread c = Some ds -> rectP (chain_order ds) (size_of N (csrc c)) (chain_rows N c V)).
 Definition good_edges (N : popnet) (Vs : list mat) : Prop :=
   length Vs = length (conns N) /\ Forall (fun cV => edge_ok N (fst cV) (snd cV)) (combine (conns N) Vs).
 
@@ -578,6 +578,24 @@ Proof.
   rewrite (nth_zipw _ _ _ i [] [] []) by lia. rewrite zipw_length. rewrite R1, R2 by exact Hi. lia.
 Qed.
 
+Lemma rows_ok_zipw_vaxpy dt n m V D : rows_ok n m V -> rows_ok n m D -> rows_ok n m (zipw (vaxpy dt) V D).
+Proof.
+  intros [L1 R1] [L2 R2]. unfold rows_ok, vaxpy, mat, vec in *. split; [rewrite zipw_length; lia|]. intros i Hi.
+  rewrite (nth_zipw _ _ _ i [] [] []) by lia. rewrite zipw_length. rewrite R1, R2 by exact Hi. lia.
+Qed.
+
+Lemma skipn_zipw {A B C} (f : A -> B -> C) : forall k a b, skipn k (zipw f a b) = zipw f (skipn k a) (skipn k b).
+Proof.
+  induction k as [|k IH]; intros a b; [reflexivity|]. destruct a as [|x a]; [reflexivity|].
+  destruct b as [|y b]; cbn [zipw skipn]; [now destruct (skipn k a)|]. apply IH.
+Qed.
+
+Lemma skipn_app_exact {A} : forall (a b : list A), skipn (length a) (a ++ b) = b.
+Proof. induction a as [|x a IH]; intros b; [reflexivity|]. cbn [length app skipn]. apply IH. Qed.
+
+Lemma chain_rows_zipw N c (f : vec -> vec -> vec) V D : chain_rows N c (zipw f V D) = zipw f (chain_rows N c V) (chain_rows N c D).
+Proof. unfold chain_rows. destruct (is_dyn (ccpl c)); [apply skipn_zipw|reflexivity]. Qed.
+
 Lemma chain_order_pos ds : (1 <= chain_order ds)%nat.
 Proof. unfold chain_order. apply Nat.le_max_l. Qed.
 
@@ -592,16 +610,18 @@ Lemma src_vec_length N h c V : good_hist N h -> (csrc c < length (pops N))%nat -
   length (src_vec N h c V) = size_of N (csrc c).
 Proof.
   intros Hh Hs [_ Hc]. unfold src_vec. destruct (cspread c) as [ds|] eqn:E; [|now apply delayed_length].
-  destruct (is_dyn (ccpl c)) eqn:Ed; [now apply delayed_length|].
-  destruct (Hc eq_refl ds eq_refl) as [HL HR]. pose proof (chain_order_pos ds) as Hpos.
+  destruct (Hc ds eq_refl) as [HL HR]. pose proof (chain_order_pos ds) as Hpos.
   rewrite last_is_nth. unfold mat, vec in *.
-  rewrite (nth_indep V (repeat (Q2Qc 0) (size_of N (csrc c))) []) by lia. apply HR. lia.
+  rewrite (nth_indep (chain_rows N c V) (repeat (Q2Qc 0) (size_of N (csrc c))) []) by (unfold mat, vec in *; lia).
+  apply HR. unfold mat, vec in *. lia.
 Qed.
 
 Lemma chain_deriv_rect N h c V ds : good_hist N h -> (csrc c < length (pops N))%nat -> cspread c = Some ds ->
-  rectP (chain_order ds) (size_of N (csrc c)) V -> rectP (chain_order ds) (size_of N (csrc c)) (chain_deriv N h c V).
+  rectP (chain_order ds) (size_of N (csrc c)) (chain_rows N c V) ->
+  rectP (chain_order ds) (size_of N (csrc c)) (chain_deriv N h c V).
 Proof.
-  intros Hh Hs E [HL HR]. unfold chain_deriv. rewrite E. cbv zeta. unfold rectP, mat, vec in *.
+  intros Hh Hs E [HL HR]. unfold chain_deriv. rewrite E. cbv zeta. set (C := chain_rows N c V) in *.
+  unfold rectP, mat, vec in *.
   split; [rewrite zipw_length; cbn [length]; lia|]. intros i Hi.
   rewrite (nth_zipw _ _ _ i [] [] []) by (cbn [length]; lia). rewrite zipw_length.
   rewrite (HR i Hi). destruct i as [|i]; cbn [nth].
@@ -612,22 +632,28 @@ Qed.
 Lemma exp_edge_deriv_ok N h c V : good_hist N h -> (csrc c < length (pops N))%nat -> edge_ok N c V ->
   edge_ok N c (exp_edge_deriv N h c V).
 Proof.
-  intros Hh Hs [_ Hc]. unfold edge_ok, exp_edge_deriv. destruct (ccpl c) as [|b f|b g] eqn:Ek; cbn [is_dyn] in *.
-  - split; [discriminate|]. intros _ ds E. apply chain_deriv_rect; try assumption. now apply Hc.
-  - split; [discriminate|]. intros _ ds E. apply chain_deriv_rect; try assumption. now apply Hc.
-  - split; [|discriminate]. intros _. cbv zeta. unfold rectP, mat, vec. split; [now rewrite map_length, seq_length|].
-    intros i Hi. rewrite (nth_map_seq _ _ i [] Hi). now rewrite map_length, seq_length.
+  intros Hh Hs [_ Hc]. unfold edge_ok, exp_edge_deriv, chain_rows at 1. destruct (ccpl c) as [|b f|b g] eqn:Ek; cbn [is_dyn] in *.
+  - split; [discriminate|]. intros ds E. apply chain_deriv_rect; try assumption. now apply Hc.
+  - split; [discriminate|]. intros ds E. apply chain_deriv_rect; try assumption. now apply Hc.
+  - cbv zeta.
+    set (M := map (fun i => map (fun j => g (nth j (src_vec N h c V) 0) (nth i (post_of N h c) 0) (nth j (nth i V []) 0))
+                                (seq 0 (size_of N (csrc c)))) (seq 0 (size_of N (ctgt c)))).
+    assert (HM : length M = size_of N (ctgt c)) by (unfold M; now rewrite map_length, seq_length).
+    split.
+    + intros _. unfold rows_ok, mat, vec in *. split; [rewrite app_length; lia|]. intros i Hi.
+      rewrite app_nth1 by lia. unfold M. rewrite (nth_map_seq _ _ i [] Hi). now rewrite map_length, seq_length.
+    + intros ds E. rewrite <- HM. rewrite skipn_app_exact. apply chain_deriv_rect; try assumption. now apply Hc.
 Qed.
 
 Lemma edge_step_ok N dt c V D : edge_ok N c V -> edge_ok N c D -> edge_ok N c (zipw (vaxpy dt) V D).
 Proof.
   intros [A1 A2] [B1 B2]. split.
-  - intros Hd. apply rectP_zipw_vaxpy; auto.
-  - intros Hd ds E. apply rectP_zipw_vaxpy; eauto.
+  - intros Hd. apply rows_ok_zipw_vaxpy; auto.
+  - intros ds E. rewrite chain_rows_zipw. apply rectP_zipw_vaxpy; eauto.
 Qed.
 
 (* the broadcast form of the pair states = the per-pair form, as whole matrices *)
-Lemma map3m_eq g s t V nt ns : length s = ns -> length t = nt -> rectP nt ns V ->
+Lemma map3m_eq g s t V nt ns : length s = ns -> length t = nt -> rows_ok nt ns V ->
   map3m g (broadcast_pre s nt) (broadcast_post t (length s)) V =
   map (fun i => map (fun j => g (nth j s 0) (nth i t 0) (nth j (nth i V []) 0)) (seq 0 ns)) (seq 0 nt).
 Proof.
@@ -663,15 +689,12 @@ Proof.
   unfold wf_conn in Hwf. apply andb_true_iff in Hwf. destruct Hwf as [_ Hrect].
   unfold pop_edge_deriv, exp_edge_deriv, pop_source. rewrite Hcol. destruct Hok as [Hd _].
   destruct (cw c) as [W|w]; destruct (ccpl c) as [|b f|b g]; try reflexivity; try discriminate Hg.
-  destruct (rect_rows _ _ _ Hrect) as [HL _]. cbv zeta. rewrite HL.
+  destruct (rect_rows _ _ _ Hrect) as [HL _]. cbv zeta. rewrite HL. f_equal.
   apply map3m_eq; [exact Hlen| |now apply Hd]. unfold post_of. now apply delayed_length.
 Qed.
 
-(* guard of the trajectory theorem: per-connection guards, none of the loud classes; a gamma-kernel delay together with a
-   dynamic coupling template is not modelled and therefore excluded *)
-Definition spread_modelled (N : popnet) : bool :=
-  forallb (fun c => negb (is_dyn (ccpl c) && match cspread c with Some _ => true | None => false end)) (conns N).
-Definition traj_guard (N : popnet) : bool := forallb (conn_guard N) (conns N) && negb (loud N) && spread_modelled N.
+(* guard of the trajectory theorem: the per-connection guards and none of the loud classes *)
+Definition traj_guard (N : popnet) : bool := forallb (conn_guard N) (conns N) && negb (loud N).
 
 Lemma conn_ok_all N h : wf_net N = true -> forallb (conn_guard N) (conns N) = true -> good_hist N h -> good_edges N (snd (cur h)) ->
   Forall (conn_ok N h) (combine (conns N) (snd (cur h) ++ repeat [] (length (conns N)))).
@@ -782,7 +805,7 @@ Proof.
   unfold conn_guard in Hg. apply andb_true_iff in Hg. destruct Hg as [_ Hg].
   unfold wf_conn in Hwc. apply andb_true_iff in Hwc. destruct Hwc as [_ Hrect].
   destruct (cw c) as [W|w]; destruct (ccpl c); cbn [is_dyn]; try reflexivity; try discriminate Hg.
-  unfold rect in Hrect. apply andb_true_iff in Hrect. destruct Hrect as [HL HR]. apply Nat.eqb_eq in HL.
+  f_equal. unfold rect in Hrect. apply andb_true_iff in Hrect. destruct Hrect as [HL HR]. apply Nat.eqb_eq in HL.
   unfold full. rewrite <- HL. exact (map_const_full W (size_of N (csrc c)) v0 HR).
 Qed.
 
@@ -792,8 +815,11 @@ Proof. induction l as [|x l IH]; intros H; cbn [map combine]; constructor; [appl
 Lemma init_edges_good N v0 : good_edges N (init_edges_exp N v0).
 Proof.
   unfold good_edges, init_edges_exp. split; [apply map_length|]. apply Forall_combine_map. intros c _. cbn [fst snd].
-  unfold edge_ok. destruct (is_dyn (ccpl c)) eqn:Ed; split; try discriminate; intros _.
-  - apply rectP_full.
+  unfold edge_ok, chain_rows. destruct (is_dyn (ccpl c)) eqn:Ed; split; try discriminate.
+  - intros _. destruct (rectP_full (size_of N (ctgt c)) (size_of N (csrc c)) v0) as [FL FR].
+    unfold rows_ok, mat, vec in *. split; [rewrite app_length; lia|]. intros i Hi. rewrite app_nth1 by lia. now apply FR.
+  - intros ds E. destruct (rectP_full (size_of N (ctgt c)) (size_of N (csrc c)) v0) as [FL _].
+    rewrite <- FL at 1. rewrite skipn_app_exact. unfold init_chain. rewrite E. apply (rectP_full (chain_order ds) (size_of N (csrc c)) 0).
   - intros ds E. unfold init_chain. rewrite E. apply (rectP_full (chain_order ds) (size_of N (csrc c)) 0).
 Qed.
 
@@ -802,7 +828,7 @@ Theorem pop_run_is_exp_run U N units dt rows :
   wf_net N = true -> wf_units N units = true -> traj_guard N = true ->
   pop_run U N units dt rows = Some (exp_run 0 U N units dt rows).
 Proof.
-  intros Hwf Hu Hg. unfold traj_guard in Hg. apply andb_true_iff in Hg. destruct Hg as [Hg _].
+  intros Hwf Hu Hg. unfold traj_guard in Hg.
   apply andb_true_iff in Hg. destruct Hg as [Hg Hl]. apply negb_true_iff in Hl.
   unfold pop_run, exp_run. rewrite (norm_id N Hg). cbv zeta. rewrite Hl. f_equal.
   rewrite (init_edges_eq N 0 Hwf Hg). unfold traj. destruct rows as [|k]; [reflexivity|].
@@ -822,3 +848,128 @@ Lemma nonvacuous_dyn :
   chain_order (mkq 1 1, mkq 1 2) = 4%nat /\
   list_eqb pstate_eqb (nth 3 (exp_run 0 unit_poly N_example_dyn units_example (mkq 1 4) 4) []) units_example = false.
 Proof. repeat split; vm_compute; reflexivity. Qed.
+
+(* ================================================================== the full statement, once every repair is in *)
+Definition all_fixed : bool := fixed_F1 && fixed_F2 && fixed_F3 && fixed_F5 && fixed_F6 && fixed_F7.
+
+Lemma all_fixed_flags : all_fixed = true ->
+  fixed_F1 = true /\ fixed_F2 = true /\ fixed_F3 = true /\ fixed_F5 = true /\ fixed_F6 = true /\ fixed_F7 = true.
+Proof. unfold all_fixed. intros H. repeat (apply andb_true_iff in H; destruct H as [H ?]). repeat split; assumption. Qed.
+
+Lemma existsb_const_false {A} (l : list A) : existsb (fun _ => false) l = false.
+Proof. induction l; [reflexivity|exact IHl]. Qed.
+
+Lemma collides_fixed N c : all_fixed = true -> collides N c = false.
+Proof. intros H. destruct (all_fixed_flags H) as (_ & H2 & _). unfold collides. rewrite H2. reflexivity. Qed.
+
+Lemma loud_fixed N : all_fixed = true -> loud N = false.
+Proof.
+  intros H. destruct (all_fixed_flags H) as (H1 & H2 & _ & H5 & H6 & H7).
+  unfold loud, alias, cpl_bad_shape, delay_1x1, collides. rewrite H1, H2, H5, H6, H7. cbn [negb andb orb].
+  apply existsb_const_false.
+Qed.
+
+Lemma rect_full nt ns w : rect nt ns (repeat (repeat w ns) nt) = true.
+Proof.
+  unfold rect. rewrite repeat_length, Nat.eqb_refl. cbn [andb]. apply forallb_forall. intros r Hr.
+  apply repeat_spec in Hr. subst r. rewrite repeat_length. apply Nat.eqb_refl.
+Qed.
+
+Lemma wf_norm N : wf_net N = true -> wf_net (norm N) = true.
+Proof.
+  unfold wf_net. intros H. apply andb_true_iff in H. destruct H as [Hp Hc]. apply andb_true_iff. split; [exact Hp|].
+  cbn [norm conns]. apply forallb_forall. intros c' Hin. apply in_map_iff in Hin. destruct Hin as (c & <- & Hin).
+  rewrite forallb_forall in Hc. specialize (Hc c Hin). unfold wf_conn in *. unfold norm_conn.
+  destruct (cw c) as [W|w] eqn:Ew; [rewrite Ew; exact Hc|].
+  destruct (fixed_F3 && negb (is_plain (ccpl c))); [|rewrite Ew; exact Hc].
+  cbn [csrc ctgt cw]. apply andb_true_iff in Hc. destruct Hc as [Hc _].
+  change (pops (norm N)) with (pops N). rewrite Hc. cbn [andb]. apply rect_full.
+Qed.
+
+Lemma conn_guard_norm N : all_fixed = true -> forallb (conn_guard (norm N)) (conns (norm N)) = true.
+Proof.
+  intros H. destruct (all_fixed_flags H) as (_ & _ & H3 & _). apply forallb_forall. intros c' Hin. cbn [norm conns] in Hin.
+  apply in_map_iff in Hin. destruct Hin as (c & <- & _). unfold conn_guard. rewrite (collides_fixed _ _ H). cbn [negb andb].
+  unfold norm_conn. rewrite H3. destruct (cw c) as [W|w] eqn:Ew; [now rewrite Ew|].
+  destruct (ccpl c) eqn:Ek; cbn [is_plain negb andb cw ccpl]; rewrite ?Ew, ?Ek; reflexivity.
+Qed.
+
+(* the explicit network does not change when a scalar weight with a template is written as the full matrix *)
+Lemma combine_map_l {A B C} (f : A -> C) : forall (a : list A) (b : list B),
+  combine (map f a) b = map (fun p => (f (fst p), snd p)) (combine a b).
+Proof. induction a as [|x a IH]; intros [|y b]; cbn [map combine]; try reflexivity. cbn [fst snd]. now rewrite IH. Qed.
+
+Lemma filter_map_comm {A B} (g : A -> B) (P : B -> bool) : forall l, filter P (map g l) = map g (filter (fun x => P (g x)) l).
+Proof. induction l as [|x l IH]; [reflexivity|]. cbn [map filter]. destruct (P (g x)); cbn [map]; now rewrite IH. Qed.
+
+Lemma edge_sum_ext es t1 t2 i : (forall e, t1 e = t2 e) -> edge_sum es t1 i = edge_sum es t2 i.
+Proof. intros H. induction es as [|e es IH]; [reflexivity|]. cbn [edge_sum]. now rewrite H, IH. Qed.
+
+Lemma into_norm N p tv c : into p tv (norm_conn N c) = into p tv c.
+Proof. unfold into, norm_conn. destruct (cw c); [reflexivity|]. destruct (fixed_F3 && negb (is_plain (ccpl c))); reflexivity. Qed.
+
+Lemma expand_norm mw N c : expand_conn mw (norm N) (norm_conn N c) = expand_conn mw N c.
+Proof.
+  unfold expand_conn, norm_conn. destruct (cw c) as [W|w] eqn:Ew; [now rewrite Ew|].
+  destruct (is_plain (ccpl c)) eqn:Ep; cbn [negb]; rewrite ?andb_false_r, ?andb_true_r.
+  - rewrite Ew, Ep. reflexivity.
+  - destruct fixed_F3; cbn [cw ccpl csrc ctgt]; rewrite ?Ew, ?Ep; reflexivity.
+Qed.
+
+Lemma exp_term_norm N h c V e : exp_term (norm N) h (norm_conn N c) V e = exp_term N h c V e.
+Proof. unfold norm_conn. destruct (cw c); [reflexivity|]. destruct (fixed_F3 && negb (is_plain (ccpl c))); reflexivity. Qed.
+
+Lemma exp_edge_deriv_norm N h c V : exp_edge_deriv (norm N) h (norm_conn N c) V = exp_edge_deriv N h c V.
+Proof. unfold norm_conn. destruct (cw c); [reflexivity|]. destruct (fixed_F3 && negb (is_plain (ccpl c))); reflexivity. Qed.
+
+Lemma exp_input_norm mw N h p tv i : exp_input mw (norm N) h p tv i = exp_input mw N h p tv i.
+Proof.
+  unfold exp_input. cbn [norm conns]. rewrite map_length, combine_map_l.
+  rewrite (filter_map_comm (fun p0 : conn * mat => (norm_conn N (fst p0), snd p0)) (fun cV => into p tv (fst cV))).
+  rewrite map_map. f_equal.
+  transitivity (map (fun cV : conn * mat => edge_sum (expand_conn mw N (fst cV)) (exp_term N h (fst cV) (snd cV)) i)
+                    (filter (fun x : conn * mat => into p tv (norm_conn N (fst x))) (combine (conns N) (snd (cur h) ++ repeat [] (length (conns N)))))).
+  - apply map_ext. intros [c V]. cbn [fst snd]. rewrite expand_norm. apply edge_sum_ext. intros e. apply exp_term_norm.
+  - f_equal. apply filter_ext. intros [c V]. cbn [fst]. apply into_norm.
+Qed.
+
+Lemma exp_deriv_norm mw U N h : exp_deriv mw U (norm N) h = exp_deriv mw U N h.
+Proof.
+  unfold exp_deriv. f_equal.
+  - cbn [norm pops]. apply map_ext. intros p. cbv zeta.
+    assert (E : forall i, U (exp_pars (pop_of (norm N) p) i) (nth i (sx (nth p (fst (cur h)) dps)) 0) (nth i (sz (nth p (fst (cur h)) dps)) 0)
+                            (exp_input mw (norm N) h p 0 i) (exp_input mw (norm N) h p 1 i) =
+                          U (exp_pars (pop_of N p) i) (nth i (sx (nth p (fst (cur h)) dps)) 0) (nth i (sz (nth p (fst (cur h)) dps)) 0)
+                            (exp_input mw N h p 0 i) (exp_input mw N h p 1 i)).
+    { intros i. now rewrite !exp_input_norm. }
+    change (psize (pop_of (norm N) p)) with (psize (pop_of N p)).
+    rewrite (map_ext _ _ E). reflexivity.
+  - cbn [norm conns]. rewrite map_length, combine_map_l, map_map. apply map_ext. intros [c V]. cbn [fst snd]. apply exp_edge_deriv_norm.
+Qed.
+
+Lemma init_edges_exp_norm N v0 : init_edges_exp (norm N) v0 = init_edges_exp N v0.
+Proof.
+  unfold init_edges_exp. cbn [norm conns]. rewrite map_map. apply map_ext. intros c.
+  unfold norm_conn. destruct (cw c); [reflexivity|]. destruct (fixed_F3 && negb (is_plain (ccpl c))); reflexivity.
+Qed.
+
+Lemma run_hist_ext D1 D2 dt init k : (forall h, D1 h = D2 h) -> run_hist D1 dt init k = run_hist D2 dt init k.
+Proof. intros H. induction k as [|k IH]; [reflexivity|]. cbn [run_hist]. now rewrite IH, H. Qed.
+
+Lemma exp_run_norm mw U N units dt rows : exp_run mw U (norm N) units dt rows = exp_run mw U N units dt rows.
+Proof.
+  unfold exp_run, traj. rewrite init_edges_exp_norm. destruct rows as [|k]; [reflexivity|].
+  now rewrite (run_hist_ext _ _ dt (units, init_edges_exp N 0) k (exp_deriv_norm mw U N)).
+Qed.
+
+(* with every repair in, NO guard is left: any well-formed population circuit, any unit dynamics, any number of rows *)
+Theorem pop_run_full U N units dt rows : all_fixed = true ->
+  wf_net N = true -> wf_units N units = true ->
+  pop_run U N units dt rows = Some (exp_run 0 U N units dt rows).
+Proof.
+  intros HF Hwf Hu. rewrite <- exp_run_norm.
+  assert (Hg : traj_guard (norm N) = true).
+  { unfold traj_guard. rewrite (conn_guard_norm N HF), (loud_fixed (norm N) HF). reflexivity. }
+  rewrite <- (pop_run_is_exp_run U (norm N) units dt rows (wf_norm N Hwf) Hu Hg).
+  unfold pop_run. rewrite (norm_id (norm N) (conn_guard_norm N HF)). reflexivity.
+Qed.
